@@ -222,6 +222,12 @@ MUTANTS = [
     ("complex64-scalar-in-real-space", {"C13": "A4.vspace", "C09": "A4.vspace"}, [(NS, "for type_ in [float, np.longdouble, np.float64, np.float32, np.float16]:", "for type_ in [float, np.longdouble, np.float64, np.float32, np.float16, np.complex64]:"), (NS, "for type_ in [complex, np.clongdouble, np.complex64, np.complex128]:", "for type_ in [complex, np.clongdouble, np.complex128]:")]),
     ("diagonal-vjp-moveaxis-swapped", {"C01": "A16", "C15": "A16"}, [(NV, "lambda ans, A, offset=0, axis1=0, axis2=1: lambda g: anp.make_diagonal(g, offset, axis1, axis2),", "lambda ans, A, offset=0, axis1=0, axis2=1: lambda g: anp.moveaxis(anp.make_diagonal(g, offset, axis1=-1, axis2=-2), (axis1, axis2), (-1, -2)),")]),
     ("index-order-A-ignores-c-contiguity", {"C01": "A7.order", "C02": "A7.order"}, [(NV, "    flags = onp.asarray(getval(x)).flags\n    if flags.c_contiguous:", "    flags = onp.asarray(getval(x)).flags\n    if order == \"A\":\n        return \"F\" if flags.f_contiguous else \"C\"\n    if flags.c_contiguous:")]),
+    ("rfft2-adjoint-partner-is-irfftn", {"C01": "A2.fwd"}, [(FF, "defvjp(rfft2, lambda *args, **kwargs: rfft_grad(get_fft2_args, irfft2, *args, **kwargs))", "defvjp(rfft2, lambda *args, **kwargs: rfft_grad(get_fft2_args, irfftn, *args, **kwargs))")]),
+    ("fftshift-vjp-loses-outer-conj", {"C09": "A4.parity"}, [(FF, "    fftshift, lambda ans, x, axes=None: lambda g: match_complex(x, anp.conj(ifftshift(anp.conj(g), axes)))", "    fftshift, lambda ans, x, axes=None: lambda g: match_complex(x, ifftshift(anp.conj(g), axes))")]),
+    ("absolute-vjp-unguarded-again", {"C01": "A5.alias"}, [(NV, "defvjp(anp.absolute, lambda ans, x: lambda g: g * replace_zero(anp.conj(x), 0.0) / replace_zero(ans, 1.0))", "defvjp(anp.absolute, lambda ans, x: lambda g: g * anp.conj(x) / ans)")]),
+    ("true-divide-jvp-sign", {"C02": "A5.alias"}, [(NJ, 'defjvp(anp.true_divide, "same", lambda g, ans, x, y: -g * x / y**2)', 'defjvp(anp.true_divide, "same", lambda g, ans, x, y: g * x / y**2)')]),
+    ("sparse-add-returns-accumulator", {"C11": "A9.pure", "C10": "A9.pure"}, [(CO, "    x_prev = x_prev if x_prev is not None else vs.zeros()\n    return x_new.mut_add(x_prev)", "    x_prev = x_prev if x_prev is not None else vs.zeros()\n    x_new.mut_add(x_prev)\n    return x_prev")]),
+    ("ggnvp-jvp-of-argument-zero", {"C16": "A15.products"}, [(DO, "        f_vjp, f_x = _make_vjp(f, x)\n        g_hvp, grad_g_x = _make_vjp(grad(g), f_x)", "        f_vjp, f_x = _make_vjp(f, x)\n        g_hvp, grad_g_x = _make_vjp(grad(g), x)")]),
     ("container-space-loses-subval", {"C12": "A1.spaces"}, [(BU, "    def _subval(self, xs, idx, x):\n        d = dict(xs.items())\n        d[idx] = x\n        return d\n", "")]),
 ]
 
